@@ -108,6 +108,9 @@ def replay_unit(i):
 SYS_QUICK = [
     dict(name='two-thresholds', concrete_tank=True, H=3600, dur=3600, qset=[0.03], tank_link='pipe_in',
          controls=[dict(rel='gt', value=0, attr='level'), dict(rel='gt', value=1, attr='level', priority=5)]),
+    # the same on the tank's PRESSURE attribute (for a tank: its level), which the API accepts next to level and head
+    dict(name='tank-pressure-thresholds', concrete_tank=True, H=3600, dur=3600, qset=[0.03], tank_link='pipe_in',
+         controls=[dict(rel='gt', value=0, attr='pressure'), dict(rel='gt', value=1, attr='pressure', priority=5)]),
     dict(name='drain-priorities', concrete_tank=True, H=1800, dur=3600, qset=[-0.03, 0.0], tank_link='pipe_out',
          controls=[dict(rel='lt', value=0, attr='level', priority=4), dict(rel='lt', value=1, attr='head', priority=2)]),
     dict(name='pressure+level', H=3600, dur=3600, qset=[0.02, -0.02], tank_link='pipe_in',
